@@ -1,1 +1,1085 @@
-fn main() {}
+//! C20 — the resolver dispatches by DID method and is independent of completion order.
+//!
+//! (a) Σ single `resolve`: every DID of the universe × every handler table / gate count / failure point ×
+//!     both `Resolver` flavours: call log, result, unsupported-method error.
+//! (b) `resolve_multiple`: every DID list up to the tier's length (duplicates, unsupported methods, a DID whose
+//!     handler cannot parse it, a failing DID) × every configuration × both flavours × EVERY order of opening the
+//!     gates the harness handlers wait on (E3b gate executor driven by the E1 choice explorer, whole tree).
+//!     Per execution: call log, key set, equality with single resolution, must-fail. Per list: the set of
+//!     outcomes over all schedules has size 1.
+//! (c) did:jwk (E1, whole tree): public / private OKP, EC, RSA, oct JWKs × optional-member subsets × member order
+//!     × route (direct `expand_did_jwk`, both resolver flavours, `CoreDID` / `DIDJwk` typed input, resolve_multiple).
+
+use identity_core::common::Object;
+use identity_did::{CoreDID, DIDJwk, DID};
+use identity_document::document::CoreDocument;
+use identity_resolver::{ErrorCause, Resolver, SingleThreadedResolver};
+use once_cell::sync::Lazy;
+use serde::{Deserialize, Serialize};
+use std::collections::{BTreeMap, BTreeSet, HashMap};
+use std::future::Future;
+use std::pin::Pin;
+use std::rc::Rc;
+use std::sync::{Arc, Mutex};
+use vx::choice::{self, Chooser};
+use vx::gate::{run_with_gates, GateRun, Gates};
+use vx::rayon::prelude::*;
+use vx::{guard, json, Ctx, Level, Panicked, Value};
+
+// ------------------------------------------------------------------ universe
+
+const B64: &[u8; 64] = b"ABCDEFGHIJKLMNOPQRSTUVWXYZabcdefghijklmnopqrstuvwxyz0123456789-_";
+/// Hand-written base64url (no padding): the oracle does not use the library's encoder.
+fn b64url(data: &[u8]) -> String {
+  let mut s = String::new();
+  for c in data.chunks(3) {
+    let n = (c[0] as u32) << 16 | (*c.get(1).unwrap_or(&0) as u32) << 8 | *c.get(2).unwrap_or(&0) as u32;
+    s.push(B64[(n >> 18) as usize & 63] as char);
+    s.push(B64[(n >> 12) as usize & 63] as char);
+    if c.len() > 1 {
+      s.push(B64[(n >> 6) as usize & 63] as char);
+    }
+    if c.len() > 2 {
+      s.push(B64[n as usize & 63] as char);
+    }
+  }
+  s
+}
+fn bytes(n: usize, mul: u8, add: u8) -> Vec<u8> {
+  (0..n).map(|i| (i as u8).wrapping_mul(mul).wrapping_add(add)).collect()
+}
+
+/// Universe of DESIGN §2 C20 (indices 0..5) plus three extensions used by the thorough tier.
+static UNIVERSE: Lazy<Vec<String>> = Lazy::new(|| {
+  let jwk = format!(r#"{{"kty":"OKP","crv":"Ed25519","x":"{}"}}"#, b64url(&bytes(32, 7, 1)));
+  vec![
+    "did:foo:1".into(),
+    "did:foo:2".into(), // the DID the foo handler can be told to fail on
+    "did:bar:1".into(),
+    "did:baz:1".into(), // no handler for `baz`, ever
+    format!("did:jwk:{}", b64url(jwk.as_bytes())),
+    "did:bar:2".into(),
+    "did:qux:1".into(),     // `qux` has a handler whose DID type (DIDJwk) cannot represent it
+    "did:foo:bar:1".into(), // method `foo`, method-specific id `bar:1`
+  ]
+});
+static DIDS: Lazy<Vec<CoreDID>> = Lazy::new(|| UNIVERSE.iter().map(|s| CoreDID::parse(s).expect("harness universe DID")).collect());
+fn uni(i: u8) -> &'static str {
+  &UNIVERSE[i as usize]
+}
+const FAILING_DID: &str = "did:foo:2";
+
+/// table bits
+const T_FOO: u8 = 1;
+const T_BAR: u8 = 2;
+const T_JWK: u8 = 4;
+/// a decoy handler `foo-old` is attached for `foo` first and then replaced by the real one
+const T_REPLACED: u8 = 8;
+
+#[derive(Serialize, Deserialize, Debug, Clone, PartialEq, Eq, Hash, PartialOrd, Ord)]
+struct Cfg {
+  table: u8,
+  /// gates every `foo` / `bar` handler invocation awaits
+  k_foo: u8,
+  k_bar: u8,
+  /// `Some(j)`: the foo handler fails on did:foo:2 after having awaited j of its gates (0 = before any)
+  fail_at: Option<u8>,
+}
+
+#[derive(Serialize, Deserialize, Debug, Clone)]
+enum Case {
+  /// flavour 0 = `Resolver` (Send + Sync handlers), 1 = `SingleThreadedResolver`
+  Single { flavour: u8, cfg: Cfg, did: u8 },
+  /// one schedule (choice sequence of the gate executor) of one list
+  Schedule { flavour: u8, cfg: Cfg, list: Vec<u8>, seq: Vec<u32> },
+  /// every schedule of one list + the comparison of the outcomes over all of them
+  List { flavour: u8, cfg: Cfg, list: Vec<u8> },
+  Jwk { wide: bool, seq: Vec<u32> },
+  JwkRaw { payload: u8 },
+}
+
+// ------------------------------------------------------------------ harness handlers
+
+#[derive(Debug)]
+struct HErr(String);
+impl std::fmt::Display for HErr {
+  fn fmt(&self, f: &mut std::fmt::Formatter<'_>) -> std::fmt::Result {
+    f.write_str(&self.0)
+  }
+}
+impl std::error::Error for HErr {}
+
+type Log = Arc<Mutex<Vec<(String, String)>>>;
+
+/// What the harness handler `name` answers for `did` (built from the DID the handler RECEIVED).
+fn doc_for(name: &str, did: &str) -> CoreDocument {
+  let mut props = Object::new();
+  props.insert("resolvedBy".into(), Value::String(name.into()));
+  CoreDocument::builder(props).id(CoreDID::parse(did).expect("did")).build().expect("harness document")
+}
+
+async fn handler_steps(name: &'static str, k: u8, fail: Option<u8>, did: CoreDID, gates: Gates) -> Result<CoreDocument, HErr> {
+  let fail_here = if did.as_str() == FAILING_DID { fail } else { None };
+  for i in 0..k {
+    if fail_here == Some(i) {
+      return Err(HErr(format!("{name} handler failed on {did}")));
+    }
+    gates.gate(format!("{did}/{i}")).await;
+  }
+  if fail_here == Some(k) {
+    return Err(HErr(format!("{name} handler failed on {did}")));
+  }
+  Ok(doc_for(name, did.as_str()))
+}
+
+type SendFut = Pin<Box<dyn Future<Output = Result<CoreDocument, HErr>> + Send>>;
+fn handler_ss(name: &'static str, k: u8, fail: Option<u8>, log: Log, gates: Gates) -> impl Fn(CoreDID) -> SendFut + Clone + Send + Sync + 'static {
+  move |did: CoreDID| {
+    log.lock().unwrap().push((name.to_string(), did.as_str().to_string()));
+    Box::pin(handler_steps(name, k, fail, did, gates.clone()))
+  }
+}
+type LocalFut = Pin<Box<dyn Future<Output = Result<CoreDocument, HErr>>>>;
+/// Same handler for the single-threaded flavour; its future holds an `Rc` across every await (it is not `Send`).
+fn handler_st(name: &'static str, k: u8, fail: Option<u8>, log: Log, gates: Gates) -> impl Fn(CoreDID) -> LocalFut + Clone + 'static {
+  let token = Rc::new(std::cell::Cell::new(0u32));
+  move |did: CoreDID| {
+    log.lock().unwrap().push((name.to_string(), did.as_str().to_string()));
+    let token = token.clone();
+    let gates = gates.clone();
+    Box::pin(async move {
+      let r = handler_steps(name, k, fail, did, gates).await;
+      token.set(token.get() + 1);
+      r
+    })
+  }
+}
+
+enum AnyResolver {
+  SS(Resolver<CoreDocument>),
+  ST(SingleThreadedResolver<CoreDocument>),
+}
+impl AnyResolver {
+  async fn resolve<D: DID>(&self, did: &D) -> identity_resolver::Result<CoreDocument> {
+    match self {
+      AnyResolver::SS(r) => r.resolve(did).await,
+      AnyResolver::ST(r) => r.resolve(did).await,
+    }
+  }
+  async fn resolve_multiple<D: DID>(&self, dids: &[D]) -> identity_resolver::Result<HashMap<D, CoreDocument>> {
+    match self {
+      AnyResolver::SS(r) => r.resolve_multiple(dids).await,
+      AnyResolver::ST(r) => r.resolve_multiple(dids).await,
+    }
+  }
+}
+
+fn build(flavour: u8, cfg: &Cfg, log: &Log, gates: &Gates) -> AnyResolver {
+  macro_rules! attach {
+    ($r:ident, $h:ident) => {{
+      if cfg.table & T_FOO != 0 {
+        if cfg.table & T_REPLACED != 0 {
+          $r.attach_handler("foo".to_owned(), $h("foo-old", cfg.k_foo, None, log.clone(), gates.clone()));
+        }
+        $r.attach_handler("foo".to_owned(), $h("foo", cfg.k_foo, cfg.fail_at, log.clone(), gates.clone()));
+      }
+      if cfg.table & T_BAR != 0 {
+        $r.attach_handler("bar".to_owned(), $h("bar", cfg.k_bar, None, log.clone(), gates.clone()));
+      }
+      if cfg.table & T_JWK != 0 {
+        $r.attach_did_jwk_handler();
+      }
+      // `qux`: a handler whose DID type is DIDJwk; a did:qux DID never converts to it
+      let l = log.clone();
+      $r.attach_handler("qux".to_owned(), move |did: DIDJwk| {
+        l.lock().unwrap().push(("qux".to_string(), did.to_string()));
+        async move { Ok::<CoreDocument, HErr>(doc_for("qux", did.as_ref().as_str())) }
+      });
+    }};
+  }
+  if flavour == 0 {
+    let mut r = Resolver::<CoreDocument>::new();
+    attach!(r, handler_ss);
+    AnyResolver::SS(r)
+  } else {
+    let mut r = SingleThreadedResolver::<CoreDocument>::new();
+    attach!(r, handler_st);
+    AnyResolver::ST(r)
+  }
+}
+
+// ------------------------------------------------------------------ reference (written from the statement)
+
+#[derive(Debug, Clone, PartialEq)]
+enum Exp {
+  /// no handler for the method: UnsupportedMethodError, nothing is called
+  Unsupported(String),
+  /// the method's handler cannot represent the DID: an error, the handler is not called
+  Unparsable,
+  /// the harness handler `name` is called with the DID; `fails` = it returns Err
+  Handler { name: &'static str, fails: bool, gates: u8 },
+  /// the built-in did:jwk handler
+  Jwk,
+}
+impl Exp {
+  fn fails(&self) -> bool {
+    matches!(self, Exp::Unsupported(_) | Exp::Unparsable | Exp::Handler { fails: true, .. })
+  }
+  fn kind(&self) -> &'static str {
+    match self {
+      Exp::Unsupported(_) => "unsupported-method",
+      Exp::Unparsable => "did-not-parsable-by-handler",
+      Exp::Handler { fails: true, .. } => "handler-error",
+      Exp::Handler { .. } => "handler-ok",
+      Exp::Jwk => "did-jwk",
+    }
+  }
+}
+fn method_of(did: &str) -> &str {
+  did.split(':').nth(1).unwrap_or("")
+}
+fn expect(cfg: &Cfg, did: &str) -> Exp {
+  let m = method_of(did);
+  match m {
+    "foo" if cfg.table & T_FOO != 0 => Exp::Handler { name: "foo", fails: did == FAILING_DID && cfg.fail_at.is_some(), gates: cfg.k_foo },
+    "bar" if cfg.table & T_BAR != 0 => Exp::Handler { name: "bar", fails: false, gates: cfg.k_bar },
+    "jwk" if cfg.table & T_JWK != 0 => Exp::Jwk,
+    "qux" => Exp::Unparsable,
+    _ => Exp::Unsupported(m.to_string()),
+  }
+}
+
+// ------------------------------------------------------------------ running the real resolver
+
+#[derive(Debug, Clone, PartialEq)]
+enum Res<T> {
+  Ok(T),
+  /// (variant name of the ErrorCause, description incl. method / source text)
+  Err(String, String),
+  Deadlock,
+  Panic(Panicked2),
+}
+#[derive(Debug, Clone, PartialEq)]
+struct Panicked2 {
+  key: String,
+  msg: String,
+}
+impl From<Panicked> for Panicked2 {
+  fn from(p: Panicked) -> Self {
+    Panicked2 { key: p.key(), msg: p.msg }
+  }
+}
+fn err_desc(e: &identity_resolver::Error) -> (String, String) {
+  let cause = e.error_cause();
+  let variant: &'static str = cause.into();
+  let desc = match cause {
+    ErrorCause::UnsupportedMethodError { method } => format!("UnsupportedMethodError({method})"),
+    ErrorCause::HandlerError { source, .. } => format!("HandlerError({source})"),
+    ErrorCause::DIDParsingError { .. } => "DIDParsingError".to_string(),
+    _ => variant.to_string(),
+  };
+  (variant.to_string(), desc)
+}
+fn doc_json(d: &CoreDocument) -> String {
+  serde_json::to_string(d).unwrap_or_else(|e| format!("unserialisable: {e}"))
+}
+
+struct Exec<T> {
+  res: Res<T>,
+  log: Vec<(String, String)>,
+  schedule: Vec<String>,
+}
+
+fn run_single(flavour: u8, cfg: &Cfg, did: u8) -> Exec<String> {
+  let log: Log = Default::default();
+  let gates = Gates::new();
+  let target = &DIDS[did as usize];
+  let r = guard(|| {
+    let resolver = build(flavour, cfg, &log, &gates);
+    let mut ch = Chooser::replay(&[]);
+    let out = match run_with_gates(resolver.resolve(target), &gates, &mut ch) {
+      GateRun::Done(Ok(doc)) => Res::Ok(doc_json(&doc)),
+      GateRun::Done(Err(e)) => {
+        let (v, d) = err_desc(&e);
+        Res::Err(v, d)
+      }
+      GateRun::Deadlock => Res::Deadlock,
+    };
+    out
+  });
+  let res = r.unwrap_or_else(|p| Res::Panic(p.into()));
+  let log = log.lock().unwrap().clone();
+  Exec { res, log, schedule: gates.schedule() }
+}
+
+fn run_multi(flavour: u8, cfg: &Cfg, list: &[u8], ch: &mut Chooser) -> Exec<BTreeMap<String, String>> {
+  let log: Log = Default::default();
+  let gates = Gates::new();
+  let dids: Vec<CoreDID> = list.iter().map(|i| DIDS[*i as usize].clone()).collect();
+  let r = guard(|| {
+    let resolver = build(flavour, cfg, &log, &gates);
+    let out = match run_with_gates(resolver.resolve_multiple(&dids), &gates, ch) {
+      // sorted: nothing that came out of a HashMap is compared in its own order
+      GateRun::Done(Ok(map)) => Res::Ok(map.iter().map(|(k, v)| (k.as_str().to_string(), doc_json(v))).collect::<BTreeMap<_, _>>()),
+      GateRun::Done(Err(e)) => {
+        let (v, d) = err_desc(&e);
+        Res::Err(v, d)
+      }
+      GateRun::Deadlock => Res::Deadlock,
+    };
+    out
+  });
+  let res = r.unwrap_or_else(|p| Res::Panic(p.into()));
+  let log = log.lock().unwrap().clone();
+  Exec { res, log, schedule: gates.schedule() }
+}
+
+// ------------------------------------------------------------------ (a) single resolution
+
+fn judge_single(ctx: &Ctx, case: &Case, cfg: &Cfg, did: &str, ex: &Exec<String>) -> &'static str {
+  let exp = expect(cfg, did);
+  let e = "Resolver::resolve";
+  let v = |key: String, what: String| ctx.violation(&key, &format!("{what}; did {did}, call log {:?}", ex.log), case);
+  // call log
+  let want_log: Vec<(String, String)> = match &exp {
+    Exp::Handler { name, .. } => vec![(name.to_string(), did.to_string())],
+    _ => vec![],
+  };
+  match &ex.res {
+    Res::Panic(p) => {
+      v(format!("{e}|{}", p.key), p.msg.clone());
+      return "single:panic";
+    }
+    Res::Deadlock => {
+      v(format!("{e}|never-completes"), "future pending with no gate left to open".into());
+      return "single:deadlock";
+    }
+    _ => {}
+  }
+  if ex.log != want_log {
+    let class = match &exp {
+      Exp::Unsupported(_) => "unsupported-method|a-handler-was-called",
+      Exp::Unparsable => "did-not-parsable-by-handler|a-handler-was-called",
+      Exp::Jwk => "did-jwk|a-harness-handler-was-called",
+      Exp::Handler { .. } => {
+        if ex.log.is_empty() {
+          "handler-not-called"
+        } else if ex.log.len() > 1 {
+          "more-than-one-handler-call"
+        } else if ex.log[0].1 != did {
+          "handler-called-with-another-did"
+        } else {
+          "handler-of-another-method-called"
+        }
+      }
+    };
+    v(format!("{e}|call-log|{class}"), format!("expected calls {want_log:?}"));
+  }
+  match (&exp, &ex.res) {
+    (Exp::Unsupported(m), Res::Err(variant, desc)) => {
+      if variant != "UnsupportedMethodError" || *desc != format!("UnsupportedMethodError({m})") {
+        v(format!("{e}|unsupported-method|wrong-error"), format!("got {desc}"));
+      }
+      "single:unsupported-method"
+    }
+    (Exp::Unsupported(_), Res::Ok(_)) => {
+      v(format!("{e}|unsupported-method|returned-ok"), "a document was returned for a method without handler".into());
+      "single:unsupported-method"
+    }
+    (Exp::Unparsable, Res::Err(_, _)) => "single:did-not-parsable-by-handler",
+    (Exp::Unparsable, Res::Ok(_)) => {
+      v(format!("{e}|did-not-parsable-by-handler|returned-ok"), "".into());
+      "single:did-not-parsable-by-handler"
+    }
+    (Exp::Handler { name, fails: false, .. }, Res::Ok(doc)) => {
+      if *doc != doc_json(&doc_for(name, did)) {
+        v(format!("{e}|result-is-not-the-handlers"), format!("got {doc}"));
+      }
+      "single:handler-ok"
+    }
+    (Exp::Handler { fails: false, .. }, Res::Err(_, desc)) => {
+      v(format!("{e}|handler-ok|returned-err"), format!("got {desc}"));
+      "single:handler-ok"
+    }
+    (Exp::Handler { name, fails: true, .. }, Res::Err(variant, desc)) => {
+      if variant != "HandlerError" || !desc.contains(&format!("{name} handler failed on {did}")) {
+        v(format!("{e}|handler-error|error-is-not-the-handlers"), format!("got {desc}"));
+      }
+      "single:handler-error"
+    }
+    (Exp::Handler { fails: true, .. }, Res::Ok(_)) => {
+      v(format!("{e}|handler-error|returned-ok"), "".into());
+      "single:handler-error"
+    }
+    (Exp::Jwk, Res::Ok(doc)) => {
+      // the built-in handler's result is what expand_did_jwk gives; its content is judged in part (c)
+      let direct = guard(|| DIDJwk::parse(did).ok().and_then(|d| CoreDocument::expand_did_jwk(d).ok()).map(|d| doc_json(&d)));
+      if direct.ok().flatten().as_ref() != Some(doc) {
+        v(format!("{e}|did:jwk|differs-from-expand_did_jwk"), format!("got {doc}"));
+      }
+      "single:did-jwk"
+    }
+    (Exp::Jwk, Res::Err(_, desc)) => {
+      v(format!("{e}|did:jwk|public-jwk-rejected"), format!("got {desc}"));
+      "single:did-jwk"
+    }
+    (_, Res::Panic(_)) | (_, Res::Deadlock) => unreachable!(),
+  }
+}
+
+// ------------------------------------------------------------------ (b) resolve_multiple
+
+struct Judged {
+  /// canonical outcome of this execution for the comparison over all schedules
+  outcome: String,
+  label: String,
+  violated: bool,
+}
+
+fn judge_multi(
+  ctx: &Ctx,
+  flavour: u8,
+  cfg: &Cfg,
+  list: &[u8],
+  seq: &[u32],
+  ex: &Exec<BTreeMap<String, String>>,
+  singles: &BTreeMap<u8, Exec<String>>,
+) -> Judged {
+  let e = "Resolver::resolve_multiple";
+  let distinct: BTreeSet<u8> = list.iter().copied().collect();
+  let exps: BTreeMap<&str, (u8, Exp)> = distinct.iter().map(|i| (uni(*i), (*i, expect(cfg, uni(*i))))).collect();
+  let failing: Vec<&str> = exps.iter().filter(|(_, (_, x))| x.fails()).map(|(d, _)| *d).collect();
+  let fail_kinds: BTreeSet<&str> = failing.iter().map(|d| exps[d].1.kind()).collect();
+  let fail_kind = if fail_kinds.len() == 1 { fail_kinds.iter().next().unwrap() } else { "several-kinds" };
+  let mut violated = false;
+  let mut v = |key: String, what: String| {
+    violated = true;
+    let case = Case::Schedule { flavour, cfg: cfg.clone(), list: list.to_vec(), seq: seq.to_vec() };
+    let names: Vec<&str> = list.iter().map(|i| uni(*i)).collect();
+    ctx.violation(&key, &format!("{what}; list {names:?}, gates opened {:?}, call log {:?}", ex.schedule, ex.log), &case);
+  };
+
+  // ---- call log: clauses that hold whatever the result is
+  let mut seen = BTreeSet::new();
+  for (h, d) in &ex.log {
+    match exps.get(d.as_str()) {
+      None => v(format!("{e}|call-log|handler-called-with-did-not-in-input"), format!("({h},{d})")),
+      Some((_, Exp::Handler { name, .. })) => {
+        if h != name {
+          v(format!("{e}|call-log|handler-of-another-method-called"), format!("({h},{d}), expected handler {name}"));
+        }
+      }
+      Some((_, x)) => v(format!("{e}|call-log|{}|a-handler-was-called", x.kind()), format!("({h},{d})")),
+    }
+    if !seen.insert((h.clone(), d.clone())) {
+      v(format!("{e}|call-log|duplicate-resolved-more-than-once"), format!("({h},{d})"));
+    }
+  }
+
+  let (outcome, label);
+  match &ex.res {
+    Res::Panic(p) => {
+      v(format!("{e}|{}", p.key), p.msg.clone());
+      outcome = format!("panic {}", p.key);
+      label = "multi:panic".to_string();
+    }
+    Res::Deadlock => {
+      v(format!("{e}|never-completes"), "future pending with no gate left to open".into());
+      outcome = "never-completes".into();
+      label = "multi:deadlock".to_string();
+    }
+    Res::Ok(map) => {
+      outcome = format!("Ok {map:?}");
+      if !failing.is_empty() {
+        v(format!("{e}|must-fail|returned-ok|{fail_kind}"), format!("{failing:?} cannot be resolved, yet Ok with keys {:?}", map.keys().collect::<Vec<_>>()));
+        label = format!("multi:ok-although-{fail_kind}");
+      } else {
+        label = format!("multi:ok/distinct={}", distinct.len());
+        let want_keys: BTreeSet<&str> = exps.keys().copied().collect();
+        let got_keys: BTreeSet<&str> = map.keys().map(|s| s.as_str()).collect();
+        if want_keys != got_keys {
+          let class = if got_keys.is_subset(&want_keys) { "entry-missing" } else { "entry-for-did-not-in-input" };
+          v(format!("{e}|all-resolve|key-set|{class}"), format!("keys {got_keys:?}, distinct inputs {want_keys:?}"));
+        }
+        for (d, doc) in map {
+          if let Some((i, _)) = exps.get(d.as_str()) {
+            match &singles[i].res {
+              Res::Ok(single) if single == doc => {}
+              other => v(format!("{e}|all-resolve|entry-differs-from-single-resolution"), format!("{d}: multiple gives {doc}, single gives {other:?}")),
+            }
+          }
+        }
+        // exactly one call per distinct DID that has a harness handler
+        let want_calls: BTreeSet<(String, String)> =
+          exps.iter().filter_map(|(d, (_, x))| if let Exp::Handler { name, .. } = x { Some((name.to_string(), d.to_string())) } else { None }).collect();
+        if seen != want_calls {
+          let class = if seen.is_subset(&want_calls) { "handler-not-called" } else { "unexpected-call" };
+          v(format!("{e}|all-resolve|call-log|{class}"), format!("expected calls {want_calls:?}"));
+        }
+      }
+    }
+    Res::Err(variant, desc) => {
+      if failing.is_empty() {
+        v(format!("{e}|all-resolve|returned-err"), format!("every distinct DID resolves on its own, got {desc}"));
+        outcome = format!("Err {desc}");
+        label = "multi:err-although-all-resolve".to_string();
+      } else if failing.len() == 1 {
+        // one culprit: the error is comparable (over schedules, and with single resolution by variant)
+        outcome = format!("Err {desc}");
+        label = format!("multi:err/{fail_kind}");
+        let i = exps[failing[0]].0;
+        match &singles[&i].res {
+          Res::Err(sv, _) if sv == variant => {}
+          other => v(format!("{e}|one-fails|error-kind-differs-from-single-resolution"), format!("{}: multiple gives {desc}, single gives {other:?}", failing[0])),
+        }
+      } else {
+        // several culprits: which error surfaces is not compared
+        outcome = "Err".to_string();
+        label = format!("multi:err/{}-of-{}-fail/{fail_kind}", failing.len(), distinct.len());
+      }
+    }
+  }
+  Judged { outcome, label, violated }
+}
+
+#[derive(Default, Clone)]
+struct Agg {
+  lists: u64,
+  executions: u64,
+  nodes: u64,
+  edges: u64,
+  max_executions_per_list: u64,
+  max_depth: u64,
+  lists_with_gt1_schedule: u64,
+}
+static AGG: Lazy<Mutex<BTreeMap<(u8, usize), Agg>>> = Lazy::new(Default::default);
+
+fn multinomial(ks: &[u64]) -> u64 {
+  let mut r: u64 = 1;
+  let mut n: u64 = 0;
+  for k in ks {
+    for j in 1..=*k {
+      n += 1;
+      r = r * n / j; // exact: r is always a product of binomials
+    }
+  }
+  r
+}
+
+fn eval_list(ctx: &Ctx, flavour: u8, cfg: &Cfg, list: &[u8]) {
+  let distinct: BTreeSet<u8> = list.iter().copied().collect();
+  let singles: BTreeMap<u8, Exec<String>> = distinct.iter().map(|i| (*i, run_single(flavour, cfg, *i))).collect();
+  struct Acc {
+    outcomes: BTreeMap<String, (u64, Vec<String>)>,
+    hist: BTreeMap<String, u64>,
+    violated: bool,
+  }
+  let acc = Mutex::new(Acc { outcomes: BTreeMap::new(), hist: BTreeMap::new(), violated: false });
+  let st = choice::explore(None, |ch: &mut Chooser| {
+    let ex = run_multi(flavour, cfg, list, ch);
+    let seq = ch.seq();
+    let j = judge_multi(ctx, flavour, cfg, list, &seq, &ex, &singles);
+    let mut a = acc.lock().unwrap();
+    *a.hist.entry(j.label).or_insert(0) += 1;
+    a.violated |= j.violated;
+    let slot = a.outcomes.entry(j.outcome).or_insert_with(|| (0, ex.schedule.clone()));
+    slot.0 += 1;
+    // keep the smallest schedule as the example, so the report does not depend on worker timing
+    if ex.schedule < slot.1 {
+      slot.1 = ex.schedule;
+    }
+  });
+  let acc = acc.into_inner().unwrap();
+  ctx.add_states(st.states);
+  ctx.add_transitions(st.transitions);
+  ctx.add_traces(st.executions);
+  ctx.add_evals(st.executions);
+  let mut hist = acc.hist;
+  let case = Case::List { flavour, cfg: cfg.clone(), list: list.to_vec() };
+  let names: Vec<&str> = list.iter().map(|i| uni(*i)).collect();
+  // ---- the set of outcomes over all schedules of this list has size 1
+  if acc.outcomes.len() != 1 {
+    let shown: Vec<String> = acc.outcomes.iter().map(|(o, (n, s))| format!("{n} schedules e.g. {s:?} => {o}")).collect();
+    ctx.violation(
+      "Resolver::resolve_multiple|outcome-depends-on-completion-order",
+      &format!("list {names:?}: {} different outcomes over {} schedules: {}", acc.outcomes.len(), st.executions, shown.join(" || ")),
+      &case,
+    );
+  }
+  // ---- machinery guard: when everything resolves, the executor must have offered every interleaving
+  let exps: Vec<Exp> = distinct.iter().map(|i| expect(cfg, uni(*i))).collect();
+  if !acc.violated && exps.iter().all(|x| !x.fails()) {
+    let ks: Vec<u64> = exps.iter().filter_map(|x| if let Exp::Handler { gates, .. } = x { Some(*gates as u64) } else { None }).collect();
+    let want = multinomial(&ks);
+    ctx.require(st.executions == want, &format!("list {names:?} cfg {cfg:?}: {} schedules explored, {want} interleavings exist", st.executions));
+  }
+  let bucket = match st.executions {
+    1 => "list:1-schedule",
+    2..=9 => "list:2..9-schedules",
+    10..=99 => "list:10..99-schedules",
+    100..=999 => "list:100..999-schedules",
+    _ => "list:1000+-schedules",
+  };
+  *hist.entry(bucket.into()).or_insert(0) += 1;
+  ctx.outcomes_merge(&hist);
+  if st.max_depth >= 1 {
+    ctx.distinct(&("list", flavour, cfg, list));
+  }
+  let mut g = AGG.lock().unwrap();
+  let a = g.entry((flavour, list.len())).or_default();
+  a.lists += 1;
+  a.executions += st.executions;
+  a.nodes += st.states;
+  a.edges += st.transitions;
+  a.max_executions_per_list = a.max_executions_per_list.max(st.executions);
+  a.max_depth = a.max_depth.max(st.max_depth);
+  if st.executions > 1 {
+    a.lists_with_gt1_schedule += 1;
+  }
+}
+
+// ------------------------------------------------------------------ (c) did:jwk
+
+struct JwkInput {
+  text: String,
+  did: String,
+  secret: bool,
+  /// 0 = only registered members with canonical values (key equality is judged)
+  extra: usize,
+  kty_label: &'static str,
+}
+
+fn q(s: &str) -> String {
+  format!("\"{s}\"")
+}
+
+fn jwk_input(wide: bool, ch: &mut Chooser) -> (JwkInput, usize) {
+  let kty = ch.choose("kty", 7);
+  let private = match kty {
+    5 => ch.choose("private", 3),
+    6 => 0,
+    _ => ch.choose("private", 2),
+  };
+  let nv = |w: usize| if wide { w } else { 2 };
+  let use_ = ch.choose("use", nv(3));
+  let key_ops = ch.choose("key_ops", nv(3));
+  let alg = ch.choose("alg", 2);
+  let kid = ch.choose("kid", nv(3));
+  let x5u = ch.choose("x5u", 2);
+  let x5c = ch.choose("x5c", 2);
+  let x5t = ch.choose("x5t", 2);
+  let x5t256 = ch.choose("x5t#S256", 2);
+  let extra = ch.choose("extra", 3);
+  let order = ch.choose("order", 2);
+  let route = ch.choose("route", 7);
+
+  let b = |n: usize, mul: u8, add: u8| q(&b64url(&bytes(n, mul, add)));
+  let mut m: Vec<(&str, String)> = Vec::new();
+  let kty_label;
+  match kty {
+    0 | 1 => {
+      kty_label = if kty == 0 { "OKP-Ed25519" } else { "OKP-X25519" };
+      m.push(("kty", q("OKP")));
+      m.push(("crv", q(if kty == 0 { "Ed25519" } else { "X25519" })));
+      m.push(("x", b(32, 7, 1)));
+      if private == 1 {
+        m.push(("d", b(32, 11, 3)));
+      }
+    }
+    2..=4 => {
+      let (crv, n) = [("P-256", 32), ("secp256k1", 32), ("P-384", 48)][kty - 2];
+      kty_label = ["EC-P-256", "EC-secp256k1", "EC-P-384"][kty - 2];
+      m.push(("kty", q("EC")));
+      m.push(("crv", q(crv)));
+      m.push(("x", b(n, 5, 9)));
+      m.push(("y", b(n, 3, 17)));
+      if private == 1 {
+        m.push(("d", b(n, 13, 5)));
+      }
+    }
+    5 => {
+      kty_label = "RSA";
+      m.push(("kty", q("RSA")));
+      m.push(("n", b(256, 37, 0xc1)));
+      m.push(("e", q("AQAB")));
+      if private >= 1 {
+        m.push(("d", b(256, 29, 0x41)));
+      }
+      if private == 1 {
+        for (i, name) in ["p", "q", "dp", "dq", "qi"].into_iter().enumerate() {
+          m.push((name, b(128, 17 + 2 * i as u8, 0x81)));
+        }
+      }
+    }
+    _ => {
+      kty_label = "oct";
+      m.push(("kty", q("oct")));
+      m.push(("k", b(32, 19, 2)));
+    }
+  }
+  if use_ > 0 {
+    m.push(("use", q(["sig", "enc"][use_ - 1])));
+  }
+  if key_ops > 0 {
+    m.push(("key_ops", [r#"["verify"]"#, r#"["encrypt","wrapKey"]"#][key_ops - 1].to_string()));
+  }
+  if alg > 0 {
+    m.push(("alg", q(["EdDSA", "ECDH-ES", "ES256", "ES256K", "ES384", "RS256", "HS256"][kty])));
+  }
+  if kid > 0 {
+    m.push(("kid", q(["key-1", "did:example:123#0"][kid - 1])));
+  }
+  if extra == 2 {
+    m.push(("x5u", q("https://EXAMPLE.com"))); // not in the URL crate's normal form
+  } else if x5u > 0 {
+    m.push(("x5u", q("https://example.com/certs/chain.pem")));
+  }
+  if x5c > 0 {
+    m.push(("x5c", format!("[{}]", q("MIIBszCCAVmgAwIBAgIUQ2VydGlmaWNhdGU="))));
+  }
+  if x5t > 0 {
+    m.push(("x5t", b(20, 23, 4)));
+  }
+  if x5t256 > 0 {
+    m.push(("x5t#S256", b(32, 27, 6)));
+  }
+  if extra == 1 {
+    m.push(("ext", "true".to_string())); // a member RFC 7517 does not register
+  }
+  if order == 1 {
+    m.reverse();
+  }
+  let text = format!("{{{}}}", m.iter().map(|(k, v)| format!("{}:{v}", q(k))).collect::<Vec<_>>().join(","));
+  let did = format!("did:jwk:{}", b64url(text.as_bytes()));
+  (JwkInput { text, did, secret: private != 0 || kty == 6, extra, kty_label }, route)
+}
+
+const ROUTES: [&str; 7] = [
+  "CoreDocument::expand_did_jwk",
+  "Resolver::resolve(&CoreDID)",
+  "Resolver::resolve(&DIDJwk)",
+  "SingleThreadedResolver::resolve(&CoreDID)",
+  "SingleThreadedResolver::resolve(&DIDJwk)",
+  "Resolver::resolve_multiple",
+  "SingleThreadedResolver::resolve_multiple",
+];
+
+enum RouteRes {
+  Ok(CoreDocument),
+  /// (stage that refused, message)
+  Err(&'static str, String),
+  Panic(Panicked),
+}
+
+fn jwk_route(route: usize, did: &str) -> RouteRes {
+  let r = guard(|| -> Result<CoreDocument, (&'static str, String)> {
+    let typed = || DIDJwk::parse(did).map_err(|e| ("DIDJwk::parse", e.to_string()));
+    let core = || CoreDID::parse(did).map_err(|e| ("CoreDID::parse", e.to_string()));
+    let resolver = |flavour: u8| {
+      if flavour == 0 {
+        let mut r = Resolver::<CoreDocument>::new();
+        r.attach_did_jwk_handler();
+        AnyResolver::SS(r)
+      } else {
+        let mut r = SingleThreadedResolver::<CoreDocument>::new();
+        r.attach_did_jwk_handler();
+        AnyResolver::ST(r)
+      }
+    };
+    let rerr = |e: identity_resolver::Error| ("resolver", err_desc(&e).1);
+    match route {
+      0 => CoreDocument::expand_did_jwk(typed()?).map_err(|e| ("expand_did_jwk", e.to_string())),
+      1 | 3 => vx::gate::block_on(resolver((route / 2) as u8).resolve(&core()?)).map_err(rerr),
+      2 | 4 => vx::gate::block_on(resolver((route / 2 - 1) as u8).resolve(&typed()?)).map_err(rerr),
+      _ => {
+        let d = core()?;
+        let mut map = vx::gate::block_on(resolver((route - 5) as u8).resolve_multiple(&[d.clone(), d.clone()])).map_err(rerr)?;
+        if map.len() != 1 {
+          return Err(("map-size", format!("{} entries for one distinct DID", map.len())));
+        }
+        map.remove(&d).ok_or(("map-key", "the entry is not under the input DID".to_string()))
+      }
+    }
+  });
+  match r {
+    Ok(Ok(d)) => RouteRes::Ok(d),
+    Ok(Err((s, m))) => RouteRes::Err(s, m),
+    Err(p) => RouteRes::Panic(p),
+  }
+}
+
+const RELS: [&str; 5] = ["authentication", "assertionMethod", "keyAgreement", "capabilityInvocation", "capabilityDelegation"];
+
+fn jwk_body(ctx: &Ctx, wide: bool, ch: &mut Chooser) {
+  let (inp, route) = jwk_input(wide, ch);
+  let case = Case::Jwk { wide, seq: ch.seq() };
+  let e0 = ROUTES[0];
+  let class = if inp.secret { "private" } else { "public" };
+  let base = jwk_route(0, &inp.did);
+  let v = |key: String, what: String| ctx.violation(&key, &format!("{what}; JWK {}", inp.text), &case);
+  let outcome: &str;
+  match &base {
+    RouteRes::Panic(p) => {
+      v(format!("{e0}|{}", p.key()), p.msg.clone());
+      outcome = "panic";
+    }
+    RouteRes::Err(stage, msg) => {
+      outcome = "rejected";
+      if !inp.secret && inp.extra == 0 {
+        let entry = if *stage == "DIDJwk::parse" { "DIDJwk::parse" } else { e0 };
+        v(format!("{entry}|public-jwk|rejected"), format!("{stage}: {msg}"));
+      }
+    }
+    RouteRes::Ok(doc) => {
+      outcome = "expanded";
+      if inp.secret {
+        v(format!("{e0}|private-jwk|accepted"), "a document was built from a JWK with private members".into());
+      }
+      if route == 0 {
+        // the document, as the public (JSON) representation and through the API
+        let j = serde_json::to_value(doc).unwrap_or(Value::Null);
+        let want_key: Value = serde_json::from_str(&inp.text).expect("harness JWK text is JSON");
+        let vm_id = format!("{}#0", inp.did);
+        if j["id"] != Value::String(inp.did.clone()) || doc.id().as_str() != inp.did {
+          v(format!("{e0}|document-id-is-not-the-did"), format!("id {}", j["id"]));
+        }
+        let vms = j["verificationMethod"].as_array().cloned().unwrap_or_default();
+        let mut embedded = 0;
+        let mut rels = 0;
+        for r in RELS {
+          for ent in j[r].as_array().cloned().unwrap_or_default() {
+            rels += 1;
+            match ent {
+              Value::String(s) if s == vm_id => {}
+              Value::String(s) => v(format!("{e0}|relationship-references-something-else"), format!("{r}: {s}")),
+              _ => embedded += 1,
+            }
+          }
+        }
+        if vms.len() != 1 || embedded != 0 || doc.methods(None).len() != 1 {
+          v(format!("{e0}|not-exactly-one-method"), format!("{} verificationMethod entries, {embedded} embedded in relationships", vms.len()));
+        }
+        if let Some(vm) = vms.first() {
+          if vm["id"] != Value::String(vm_id.clone()) {
+            v(format!("{e0}|method-id-is-not-did#0"), format!("{}", vm["id"]));
+          }
+          if vm["controller"] != Value::String(inp.did.clone()) {
+            v(format!("{e0}|method-controller-is-not-the-did"), format!("{}", vm["controller"]));
+          }
+          let same = vm["publicKeyJwk"] == want_key;
+          if inp.extra == 0 {
+            if !same {
+              v(format!("{e0}|method-key-differs-from-the-encoded-jwk"), format!("publicKeyJwk {}", vm["publicKeyJwk"]));
+            }
+          } else {
+            // left open by the statement (unregistered member / URL spelling): recorded only
+            ctx.outcome(&format!("jwk:{}:{}", ["", "unregistered-member", "x5u-not-normalised"][inp.extra], if same { "kept-verbatim" } else { "altered" }));
+          }
+          ctx.outcome(&format!("jwk:method-type={}", vm["type"].as_str().unwrap_or("?")));
+        }
+        ctx.outcome(&format!("jwk:relationship-entries={rels}"));
+      }
+    }
+  }
+  if route != 0 {
+    // the resolver returns the handler's result: the same as the direct expansion
+    let er = ROUTES[route];
+    match (jwk_route(route, &inp.did), &base) {
+      (RouteRes::Panic(p), _) => v(format!("{er}|did:jwk|{}", p.key()), p.msg.clone()),
+      (RouteRes::Ok(a), RouteRes::Ok(b)) if a == *b => {}
+      (RouteRes::Err(..), RouteRes::Err(..)) => {}
+      (_, RouteRes::Panic(_)) => {}
+      (RouteRes::Ok(_), _) => v(format!("{er}|did:jwk|differs-from-expand_did_jwk|ok-vs-not"), "resolver Ok, direct expansion not (or another document)".into()),
+      (RouteRes::Err(s, m), _) => v(format!("{er}|did:jwk|differs-from-expand_did_jwk|err-vs-ok"), format!("{s}: {m}")),
+    }
+  }
+  ctx.outcome(&format!("jwk:{}:{class}:{outcome}", inp.kty_label));
+  if outcome == "expanded" {
+    ctx.distinct(&("jwk", &inp.text, route));
+  }
+  if route == 3 && inp.extra == 0 {
+    ctx.sample("did:jwk", &case);
+  }
+}
+
+/// Method-specific ids that do not encode a JWK: no unwinding on any route (outcomes recorded, not judged).
+static RAW: Lazy<Vec<(&'static str, String)>> = Lazy::new(|| {
+  vec![
+    ("empty", String::new()),
+    ("not-base64url-length", "A".into()),
+    ("json-null", b64url(b"null")),
+    ("json-array", b64url(b"[1]")),
+    ("json-empty-object", b64url(b"{}")),
+    ("kty-only", b64url(br#"{"kty":"OKP"}"#)),
+    ("unknown-kty", b64url(br#"{"kty":"XYZ","x":"AA"}"#)),
+    ("not-utf8", b64url(&[0xff, 0xfe, 0x00, 0x80])),
+    ("truncated-json", b64url(br#"{"kty":"OKP","crv":"Ed25519","x":"#)),
+    ("okp-with-ec-params", b64url(br#"{"kty":"OKP","crv":"P-256","x":"AQ","y":"Ag"}"#)),
+  ]
+});
+
+fn eval_raw(ctx: &Ctx, payload: u8, case: &Case) {
+  let (name, id) = &RAW[payload as usize];
+  let did = format!("did:jwk:{id}");
+  let mut outs = Vec::new();
+  for route in 0..ROUTES.len() {
+    ctx.eval1();
+    match jwk_route(route, &did) {
+      RouteRes::Panic(p) => {
+        ctx.violation(&format!("{}|did:jwk-without-jwk|{}", ROUTES[route], p.key()), &format!("{name}: {did}: {}", p.msg), case);
+        outs.push("panic");
+      }
+      RouteRes::Ok(_) => outs.push("expanded"),
+      RouteRes::Err(..) => outs.push("rejected"),
+    }
+  }
+  outs.dedup();
+  ctx.outcome(&format!("jwk-raw:{name}:{}", outs.join("+")));
+}
+
+// ------------------------------------------------------------------ driver
+
+fn eval(ctx: &Ctx, case: &Case) {
+  match case {
+    Case::Single { flavour, cfg, did } => {
+      ctx.eval1();
+      let ex = run_single(*flavour, cfg, *did);
+      let label = judge_single(ctx, case, cfg, uni(*did), &ex);
+      ctx.outcome(label);
+      if matches!(expect(cfg, uni(*did)), Exp::Handler { .. } | Exp::Jwk) {
+        ctx.distinct(&("single", flavour, cfg, did));
+      }
+    }
+    Case::Schedule { flavour, cfg, list, seq } => {
+      ctx.eval1();
+      let distinct: BTreeSet<u8> = list.iter().copied().collect();
+      let singles: BTreeMap<u8, Exec<String>> = distinct.iter().map(|i| (*i, run_single(*flavour, cfg, *i))).collect();
+      let mut ch = Chooser::replay(seq);
+      let ex = run_multi(*flavour, cfg, list, &mut ch);
+      let j = judge_multi(ctx, *flavour, cfg, list, &ch.seq(), &ex, &singles);
+      ctx.outcome(&j.label);
+    }
+    Case::List { flavour, cfg, list } => eval_list(ctx, *flavour, cfg, list),
+    Case::Jwk { wide, seq } => {
+      ctx.eval1();
+      jwk_body(ctx, *wide, &mut Chooser::replay(seq))
+    }
+    Case::JwkRaw { payload } => eval_raw(ctx, *payload, case),
+  }
+}
+
+fn cfgs(tables: &[u8]) -> Vec<Cfg> {
+  let mut out = Vec::new();
+  for &table in tables {
+    for k_foo in 1..=2u8 {
+      for k_bar in 1..=2u8 {
+        let mut fails: Vec<Option<u8>> = vec![None];
+        fails.extend((0..=k_foo).map(Some));
+        for fail_at in fails {
+          out.push(Cfg { table, k_foo, k_bar, fail_at });
+        }
+      }
+    }
+  }
+  out
+}
+
+fn lists(universe: &[u8], max_len: usize) -> Vec<Vec<u8>> {
+  let mut all: Vec<Vec<u8>> = vec![vec![]];
+  let mut frontier: Vec<Vec<u8>> = vec![vec![]];
+  for _ in 0..max_len {
+    let mut next = Vec::new();
+    for l in &frontier {
+      for &u in universe {
+        let mut n = l.clone();
+        n.push(u);
+        next.push(n);
+      }
+    }
+    all.extend(next.iter().cloned());
+    frontier = next;
+  }
+  all
+}
+
+fn generate(ctx: &Ctx) {
+  ctx.rule(
+    "(a) full product flavour x configuration x DID for single resolve; (b) every DID list up to the length bound over the universe x \
+     configuration x flavour, and for each the WHOLE tree of gate-opening orders (E1 over the E3b executor, bound None); (c) whole choice tree \
+     kty x private x optional members x extra x member order x route. distinct_nontrivial = distinct (flavour, configuration, list) whose \
+     exploration opened at least one gate + distinct single resolutions that reach a handler + distinct (JWK text, route) that expand",
+  );
+  ctx.assume("the gate executor polls the root future on one thread; handlers that spawn onto other threads or use real timers/IO are outside the explored space");
+  ctx.assume("serde_json is trusted to parse the harness's own JWK text; base64url of the did:jwk identifiers is the harness's own encoder");
+  ctx.assume("the harness handlers are the only source of asynchrony: every suspension point of a handler is a named gate, so all completion orders and all interleavings of 1- and 2-step handlers are enumerated");
+
+  // tables: all subsets of {foo, bar, jwk} and, where foo is present, the variant where foo's handler replaced a decoy
+  let mut tables = Vec::new();
+  for t in 0..8u8 {
+    tables.push(t);
+    if t & T_FOO != 0 {
+      tables.push(t | T_REPLACED);
+    }
+  }
+  let cfgs = cfgs(&tables);
+  let universe: Vec<u8> = ctx.by_tier((0..5).collect(), (0..8).collect());
+  let max_len = ctx.by_tier(3, 4);
+  ctx.bound("universe", universe.iter().map(|i| uni(*i)).collect::<Vec<_>>());
+  ctx.bound("max_list_len", max_len);
+  ctx.bound("handler_tables", tables.len());
+  ctx.bound("configurations", cfgs.len());
+  ctx.bound("gates_per_handler", "1..=2 per method, independently");
+  ctx.bound("failure_points_of_did:foo:2", "none, or after 0..=k_foo gates");
+  ctx.bound("schedules", "all (deviation bound None)");
+
+  // (a)
+  let mut singles = Vec::new();
+  for flavour in 0..2u8 {
+    for cfg in &cfgs {
+      for &did in &universe {
+        singles.push(Case::Single { flavour, cfg: cfg.clone(), did });
+      }
+    }
+  }
+  ctx.sample("single", &singles[singles.len() / 2]);
+  singles.par_iter().for_each(|c| eval(ctx, c));
+  ctx.add_states(singles.len() as u64);
+  ctx.add_transitions(singles.len() as u64);
+  ctx.add_traces(singles.len() as u64);
+  ctx.part("single resolve", json!({"engine": "E1 full product", "cases": singles.len()}));
+
+  // (b)
+  let lists = lists(&universe, max_len);
+  let jobs: Vec<(u8, &Cfg)> = (0..2u8).flat_map(|f| cfgs.iter().map(move |c| (f, c))).collect();
+  let full = cfgs.iter().find(|c| c.table == 7 && c.k_foo == 2 && c.k_bar == 2 && c.fail_at.is_none()).expect("full cfg");
+  ctx.sample("resolve_multiple", &Case::List { flavour: 0, cfg: full.clone(), list: vec![0, 2, 0] });
+  ctx.sample("resolve_multiple", &Case::Schedule { flavour: 1, cfg: full.clone(), list: vec![0, 2], seq: vec![1, 0, 1] });
+  jobs.par_iter().for_each(|(flavour, cfg)| {
+    lists.par_iter().for_each(|list| eval_list(ctx, *flavour, cfg, list));
+  });
+  for ((flavour, len), a) in AGG.lock().unwrap().iter() {
+    ctx.part(
+      &format!("resolve_multiple {} len={len}", if *flavour == 0 { "Resolver" } else { "SingleThreadedResolver" }),
+      json!({"engine": "E3b gate executor under E1 choice DFS, whole tree", "list_explorations": a.lists, "executions": a.executions,
+        "choice_tree_nodes": a.nodes, "edges": a.edges, "max_schedules_of_one_list": a.max_executions_per_list, "max_gates_opened": a.max_depth,
+        "explorations_with_more_than_one_schedule": a.lists_with_gt1_schedule}),
+    );
+  }
+  ctx.bound("lists", lists.len());
+
+  // (c)
+  let wide = ctx.thorough();
+  choice::explore_into(ctx, "did:jwk", None, |ch| jwk_body(ctx, wide, ch));
+  let raws: Vec<Case> = (0..RAW.len() as u8).map(|payload| Case::JwkRaw { payload }).collect();
+  ctx.sample("did:jwk raw", &raws[5]);
+  raws.par_iter().for_each(|c| eval(ctx, c));
+  ctx.add_states(raws.len() as u64);
+  ctx.add_transitions((raws.len() * ROUTES.len()) as u64);
+  ctx.add_traces((raws.len() * ROUTES.len()) as u64);
+  ctx.part("did:jwk identifiers that encode no JWK", json!({"cases": raws.len(), "routes": ROUTES.len()}));
+  ctx.bound("jwk_optional_member_values", if wide { "use 0..2, key_ops 0..2, kid 0..2, others 0..1 (all subsets)" } else { "every member absent/present (all 256 subsets)" });
+}
+
+fn main() {
+  vx::run_main::<Case, _, _>("C20", Level::ModelChecking, generate, eval)
+}
